@@ -6,6 +6,7 @@ From ZV.Det Require Import ResetModel ResetProofs CwkspClean CwkspProofs RowSalt
                            MtPartition MtProofs FrameRel FrameRelProofs CwkspRefine StreamPartition StreamPartitionProofs
                            BlockState BlockStateProofs DictMode DictModeProofs
                            ApiState ApiStateProofs RawFallback RawFallbackProofs WindowContigProofs.
+From ZV.Det Require StableIn StableInProofs.
 Import ListNotations.
 Local Open Scope Z_scope.
 
@@ -204,9 +205,15 @@ Print Assumptions api_collector_survived_before_fix.
 
 (* ZSTD_CCtx_reset(session_only) + ZSTD_CCtx_reset(parameters) after ANY history of API calls: the state that selects
    parameters, dictionaries, prefix and side channels of the next frames is that of a new context *)
+(* round 3: restated with the ghost field a_buf (cctx->bufferedPolicy, which the resets do not touch and no step reads):
+   equal in every other field, after EVERY continuation k; in particular the fields of the lock-step, the parameters and
+   the dictionary view of the next frame *)
 Theorem api_full_reset_erases_history : forall hist k,
-  arun a_fresh (hist ++ [AResetSession; AResetParams] ++ k) = arun a_fresh k.
-Proof. exact full_reset_erases_api_history. Qed.
+  eqb_upto_buf (arun a_fresh (hist ++ [AResetSession; AResetParams] ++ k)) (arun a_fresh k) /\
+  api_fields (arun a_fresh (hist ++ [AResetSession; AResetParams] ++ k)) = api_fields (arun a_fresh k) /\
+  a_params (arun a_fresh (hist ++ [AResetSession; AResetParams] ++ k)) = a_params (arun a_fresh k) /\
+  frame_view (arun a_fresh (hist ++ [AResetSession; AResetParams] ++ k)) = frame_view (arun a_fresh k).
+Proof. intros hist k. split; [exact (full_reset_erases_api_history hist k) | exact (full_reset_erases_api_fields hist k)]. Qed.
 Print Assumptions api_full_reset_erases_history.
 
 (* for every history: a digested local dictionary is cctx->cdict and belongs to the loaded content *)
@@ -281,3 +288,65 @@ Theorem window_placement_matters_without_the_switch :
   geom (fst (window_update w_dict 6000 500 true)) 6000 = geom (fst (window_update w_dict 9000 500 true)) 9000.
 Proof. exact placement_matters_without_the_switch. Qed.
 Print Assumptions window_placement_matters_without_the_switch.
+
+(* ================= round 3 ================= *)
+(* 38. since 38ec6ea: after EVERY history, a single-call / buffer-less entry point (ZSTD_compressCCtx, _usingDict, _usingCDict,
+   _advanced, ZSTD_compressBegin...) leaves the streaming session closed, and the streaming call that follows starts a new
+   frame with the dictionary view of that moment *)
+Theorem api_simple_call_closes_stream : forall ops,
+  a_stage (arun a_fresh (ops ++ [ASimple])) = SInit /\
+  fst (astep (arun a_fresh (ops ++ [ASimple])) AStreamCall) = frame_start (arun a_fresh (ops ++ [ASimple])).
+Proof. intros ops. split; [exact (simple_call_closes_stream ops) | exact (stream_after_simple_starts_a_frame ops)]. Qed.
+Print Assumptions api_simple_call_closes_stream.
+
+(* 39. for EVERY history of the 14 API calls (incl. ZSTD_copyCCtx INTO the context): an open streaming session has the
+   stream buffers of the reset that started it (cctx->bufferedPolicy == ZSTDb_buffered) *)
+Theorem api_open_stream_has_buffers : forall ops,
+  a_stage (arun a_fresh ops) = SLoad -> a_buf (arun a_fresh ops) = true.
+Proof. exact open_stream_has_buffers. Qed.
+Print Assumptions api_open_stream_has_buffers.
+Example api_open_stream_reachable :
+  a_stage (arun a_fresh [ASimple; ACopyInto; AStreamCall; ASet true 4]) = SLoad.
+Proof. reflexivity. Qed.
+
+(* 40. false before d3967a5 (finding copyCCtx-into-open-stream-keeps-stage) and, for the single-call entry points, before
+   38ec6ea: stage 'load' without buffers *)
+Theorem api_copy_into_open_stream_broke_it_before_fix :
+  (let s := arun_pred39 a_fresh [AStreamCall; ACopyInto] in a_stage s = SLoad /\ a_buf s = false) /\
+  (let s := fst (astep_pre38 (arun a_fresh [AStreamCall]) ASimple) in a_stage s = SLoad /\ a_buf s = false).
+Proof. split; [exact copy_into_open_stream_broke_it_before_d3967a5 | exact simple_call_broke_it_before_38ec6ea]. Qed.
+Print Assumptions api_copy_into_open_stream_broke_it_before_fix.
+
+(* 41. stable input buffer (ZSTD_c_stableInBuffer = 1; deferred frame start, since 0548f83): for EVERY block size and EVERY sequence
+   of ZSTD_compressStream2 calls - any buffers, sizes, positions, directives, respected contract or not - from a new session, every
+   ACCEPTED call hands the block compressor only bytes inside the buffer that very call was given (zstd.h: "ALWAYS memory safe"):
+   the frame is a function of bytes the caller passed *)
+Theorem stable_input_reads_only_the_callers_buffer : forall bs cs, 0 < bs -> StableInProofs.all_in_bounds bs StableIn.s_fresh cs.
+Proof. exact StableInProofs.stable_input_reads_in_bounds. Qed.
+Print Assumptions stable_input_reads_only_the_callers_buffer.
+
+(* 42. ... and in order: while bytes are pending, an accepted call that reads something resumes exactly at the first pending byte
+   of the buffer shown before *)
+Theorem stable_input_resumes_at_the_pending_byte : forall bs s c lo hi, 0 < bs -> StableInProofs.SInv s -> 0 < StableIn.s_nc s ->
+  snd (StableIn.step bs s c) = StableIn.Read lo hi -> lo < hi -> lo = StableIn.s_esrc s + StableIn.s_epos s - StableIn.s_nc s.
+Proof. exact StableInProofs.stable_input_resumes_where_it_stopped. Qed.
+Print Assumptions stable_input_resumes_at_the_pending_byte.
+Example stable_input_hypotheses_satisfiable :
+  let s := fst (StableIn.step 131072 StableIn.s_fresh (StableIn.mkC 7000 1000 0 StableIn.DContinue)) in
+  StableInProofs.SInv s /\ 0 < StableIn.s_nc s /\ snd (StableIn.step 131072 s (StableIn.mkC 7000 200000 1000 StableIn.DContinue)) = StableIn.Read 7000 138072.
+Proof.
+  split; [| split].
+  - vm_compute. split; [discriminate | right; discriminate].
+  - vm_compute. reflexivity.
+  - vm_compute. reflexivity.
+Qed.
+
+(* 43. before 0548f83 (finding stablein-deferral-end-skips-stability-check): the call that ends the deferral was accepted with
+   another buffer, and the 1000 bytes in front of it were compressed; the repaired code refuses it and accepts the honest call *)
+Theorem stable_input_read_in_front_of_the_buffer_before_fix :
+  let s1 := fst (StableIn.step_old 131072 StableIn.s_fresh (StableIn.mkC 100000 1000 0 StableIn.DContinue)) in
+  snd (StableIn.step_old 131072 s1 (StableIn.mkC 500000 5000 0 StableIn.DEnd)) = StableIn.Read 499000 505000 /\
+  snd (StableIn.step 131072 s1 (StableIn.mkC 500000 5000 0 StableIn.DEnd)) = StableIn.Refused /\
+  snd (StableIn.step 131072 s1 (StableIn.mkC 100000 6000 1000 StableIn.DEnd)) = StableIn.Read 100000 106000.
+Proof. exact StableInProofs.stable_input_read_out_of_bounds_before_0548f83. Qed.
+Print Assumptions stable_input_read_in_front_of_the_buffer_before_fix.
